@@ -479,10 +479,9 @@ class TheJoker:
 
             pm.Deterministic("logp", model.logp())
 
-            dist = pm.Normal.dist(model.model_rv, data.rv_err.value)
-            lnlike = pm.Deterministic(
-                "ln_likelihood", pm.logp(dist, data.rv.value).sum(axis=-1)
-            )
+            # the same Gaussian data term, with the jitter included in the variance
+            dist = pm.Normal.dist(model.model_rv, err)
+            lnlike = pm.Deterministic("ln_likelihood", pm.logp(dist, y).sum(axis=-1))
 
             pm.Deterministic("ln_prior", model.logp() - lnlike)
 
